@@ -944,6 +944,29 @@ mutp("C01", "seeded_c01e_old_mutate_messages_skipped_by_update_tick", "a buffere
 mutp("C03", "seeded_c03e_removals_collected_on_tick_frames_only", "buffer_removals runs only on tick frames (seeded change c03e)",
      ["C03.R12/buffer_removals/every-frame-before-replication"], "seeded/c03e/patch.diff")
 
+# round f of the independently seeded changes
+mutp("C12", "seeded_c12f_cmp_as_signed_values", "RepliconTick::cmp compares the raw counters reinterpreted as signed integers instead of their wrapping distance (seeded change c12f)",
+     ["C12.R3/cmp/no-direct-comparison-of-counters"], "seeded/c12f/patch.diff")
+mutp("C08", "seeded_c08f_gained_entity_without_components_not_written", "the empty record of a new entity is forced only for a new client, not for regained visibility (seeded change c08f)",
+     ["C08.R6/"], "seeded/c08f/patch.diff")
+mutp("C04", "seeded_c04f_buffered_events_flat_list_sent_to_late_joiners", "buffered events are kept in one flat list without the per-frame exclusion of late joiners (seeded change c04f)",
+     ["C04.R1/"], "seeded/c04f/patch.diff")
+mutp("C16", "seeded_c16f_mutate_messages_before_update_message", "send_messages builds the mutate messages before the update message that bumps the update tick (seeded change c16f)",
+     ["C16.R5/"], "seeded/c16f/patch.diff")
+mutp("C01", "seeded_c01f_lost_entity_despawned_only_if_tracked", "a lost entity is despawned on the client only if it had a mutation tick (seeded change c01f)",
+     ["C01.R12/"], "seeded/c01f/patch.diff")
+mutp("C11", "seeded_c11f_buffered_mutations_survive_disconnect", "the client reset no longer empties the buffer of waiting mutate messages (seeded change c11f)",
+     ["C11.R7/client/client::BufferedMutations/reset-on-disconnect"], "seeded/c11f/patch.diff")
+mutp("C10", "seeded_c10f_expired_lists_pooled_uncleared_clear_on_take_dropped", "ack drains the list, the clear on take is dropped, expiry still pools uncleared lists (seeded change c10f)",
+     ["C10.R7/"], "seeded/c10f/patch.diff")
+mutp("C14", "seeded_c14f_bundle_hashed_by_component_names", "replicate_bundle hashes the component names of the rule instead of the bundle type (seeded change c14f)",
+     ["C14.R2/replicate_bundle/calls-hash-once"], "seeded/c14f/patch.diff")
+mut("C11", "ack_applied_to_every_tracked_entity", "an acknowledgement moves the baseline of every entity tracked for the client, not of the entities recorded for the message", ["C11.R2/ack/iterates-recorded-entities"],
+    ("src/shared/replication/client_ticks.rs", """        for entity in &mutate_info.entities {
+            let Some(last_tick) = self.mutation_ticks.get_mut(entity) else {""", """        let tracked: Vec<Entity> = self.mutation_ticks.keys().copied().collect();
+        for entity in &tracked {
+            let Some(last_tick) = self.mutation_ticks.get_mut(entity) else {"""))
+
 # unconditional mutators (rules/mutators.py, rule R20 of the owning properties)
 mutp("C16", "seeded_c16e_identical_ids_not_queued", "a mapping whose two ids have identical bits is not queued (seeded change c16e)",
      ["C16.R3/ClientEntityMap::insert/every-pair-is-queued"], "seeded/c16e/patch.diff")
@@ -983,6 +1006,47 @@ mut("C10", "mutated_entity_not_recorded_twice", "Mutations::add_entity returns e
         if self.entity_location.is_some() && self.standalone.len() > 64 {
             return;
         }"""))
+
+mut("C05", "reintroduce_d18_unmapped_record_leaks_on_error", "ServerEvent::deserialize returns through `?` without clearing the unmapped-entity record when the inner deserialiser fails", ["C05.R5/ServerEvent::deserialize/record-does-not-outlive-the-event"],
+    ("src/shared/event/server_event.rs", """        let result = unsafe {
+            self.event_fns
+                .typed::<ServerSendCtx, ClientReceiveCtx, E, I>()
+                .deserialize(ctx, message)
+        };
+
+        // Checked even if deserialization failed to avoid leaking
+        // unmapped entities into the next event.
+        if ctx.invalid_entities.is_empty() {
+            result
+        } else {""", """        let event = unsafe {
+            self.event_fns
+                .typed::<ServerSendCtx, ClientReceiveCtx, E, I>()
+                .deserialize(ctx, message)?
+        };
+
+        if ctx.invalid_entities.is_empty() {
+            Ok(event)
+        } else {"""))
+mut("C05", "reintroduce_d18_on_client_serialize", "ClientEvent::serialize returns through `?` without clearing the unmapped-entity record", ["C05.R5/ClientEvent::serialize/record-does-not-outlive-the-event"],
+    ("src/shared/event/client_event.rs", """        let result = unsafe {
+            self.event_fns
+                .typed::<ClientSendCtx, ServerReceiveCtx, E, I>()
+                .serialize(ctx, event, message)
+        };
+
+        // Checked even if serialization failed to avoid leaking
+        // unmapped entities into the next event.
+        if ctx.invalid_entities.is_empty() {
+            result
+        } else {""", """        unsafe {
+            self.event_fns
+                .typed::<ClientSendCtx, ServerReceiveCtx, E, I>()
+                .serialize(ctx, event, message)?;
+        }
+
+        if ctx.invalid_entities.is_empty() {
+            Ok(())
+        } else {"""))
 
 # first-sight completeness (shared rule: C07.R6 / C03.R7 / C08.R6)
 mut("C07", "seeded_c07a_rate_limited_components_skipped", "rate-limited components are skipped before the per-client pass unless just added (late-authorized clients never get them)", ["C07.R6/collect_changes/every-component-reaches-clients"],
@@ -1136,7 +1200,7 @@ mut("C04", "pop_if_le_ignores_tick", "pop_if_le releases the first entry whateve
 mut("C04", "client_events_before_replication", "client receives events before applying replication", ["after-receive_replication"],
     ("src/client/event.rs", "                            .after(super::receive_replication)\n", "                            .before(super::receive_replication)\n"))
 mut("C04", "unmapped_entities_accepted", "events with unmappable entities are delivered with placeholders", ["ok-only-when-all-mapped"],
-    (SE, "        if ctx.invalid_entities.is_empty() {\n            Ok(event)\n        } else {\n            let msg = format!(\n                \"unable to map entities `{:?}` from the server", "        if ctx.invalid_entities.is_empty() || ctx.invalid_entities.len() < 8 {\n            ctx.invalid_entities.clear();\n            Ok(event)\n        } else {\n            let msg = format!(\n                \"unable to map entities `{:?}` from the server"))
+    (SE, "        if ctx.invalid_entities.is_empty() {\n            result\n        } else {\n            let msg = format!(\n                \"unable to map entities `{:?}` from the server", "        if ctx.invalid_entities.is_empty() || ctx.invalid_entities.len() < 8 {\n            ctx.invalid_entities.clear();\n            result\n        } else {\n            let msg = format!(\n                \"unable to map entities `{:?}` from the server"))
 mut("C04", "trigger_targets_not_mapped", "server trigger targets are used as server entities on the client", ["targets-mapped"],
     ("src/shared/event/server_trigger.rs", "        targets.push(ctx.get_mapped(entity));", "        targets.push(entity);"))
 
@@ -1193,11 +1257,15 @@ mut("C05", "failed_serialization_still_sent", "events that failed to map are sen
                 );"""))
 mut("C05", "unmapped_client_event_ok", "client events with unknown entities are serialised successfully", ["ClientEvent::serialize/ok-only-when-all-mapped"],
     (CE, """        if ctx.invalid_entities.is_empty() {
-            Ok(())
-        } else {""", """        if ctx.invalid_entities.is_empty() || ctx.invalid_entities.len() == 1 {
+            result
+        } else {
+            let msg = format!(
+                "unable to map entities `{:?}` for the server, \\""", """        if ctx.invalid_entities.is_empty() || ctx.invalid_entities.len() == 1 {
             ctx.invalid_entities.clear();
-            Ok(())
-        } else {"""))
+            result
+        } else {
+            let msg = format!(
+                "unable to map entities `{:?}` for the server, \\"""))
 mut("C05", "client_trigger_targets_unmapped", "client trigger targets are sent as client entities", ["trigger_serialize/targets-mapped"],
     ("src/shared/event/client_trigger.rs", "        let entity = ctx.get_mapped(entity);\n        entity_serde::serialize_entity(message, entity)?;", "        entity_serde::serialize_entity(message, entity)?;"))
 mut("C05", "triggers_not_drained", "client triggers are read without draining (fire again next frame)", ["trigger_typed/drains"],
@@ -1274,7 +1342,7 @@ mut("C03", "reader_arms_swapped", "reader applies removals with the despawn hand
                 let len = apply_array(array_kind, message, |message| {
                     apply_removals(world, params, message, message_tick)
                 })"""))
-mut("C03", "writer_despawn_arm_writes_removals_len", "despawn section header carries the removals count", ["Updates::send/bb"],
+mut("C03", "writer_despawn_arm_writes_removals_len", "despawn section header carries the removals count", ["C03.R2/Updates::send/arm-"],
     (UPDS, "                        postcard_utils::to_extend_mut(&self.despawns_len, &mut message)?;", "                        postcard_utils::to_extend_mut(&self.removals.len(), &mut message)?;"))
 mut("C03", "second_update_sender", "mappings are sent as their own update message", ["update-channel/single-writer", "classified"],
     ("src/server.rs", """        trace!("writing mappings for client `{client_entity}`");
@@ -1746,4 +1814,27 @@ benign("client_events_scratch_buffer_cleared_first", "client events are serialis
 
     /// Receives events from a client."""))
 
+benign("trigger_with_unmapped_targets_refused_early_after_d18_fix", "trigger_deserialize refuses a trigger with unmappable targets before deserialising its payload (seeded change c05f): harmless since 0bd10c1, the wrapper clears the record on the error path",
+    ("src/shared/event/server_trigger.rs", """    let event = (deserialize)(ctx, message)?;
+
+    Ok(ServerTriggerEvent { event, targets })""", """    if !ctx.invalid_entities.is_empty() {
+        return Err(format!(
+            "unable to map trigger targets `{:?}` from the server",
+            ctx.invalid_entities
+        )
+        .into());
+    }
+
+    let event = (deserialize)(ctx, message)?;
+
+    Ok(ServerTriggerEvent { event, targets })"""))
+
 BENIGN = B
+
+benign("ack_drains_the_entity_list", "ack_mutate_message drains the recorded entity list (returned to the pool empty); the clear on take stays",
+       ("src/shared/replication/client_ticks.rs", """        let Some(mutate_info) = self.mutations.remove(&mutate_index) else {
+            debug!("received unknown `{mutate_index:?}` from client `{client}`");""", """        let Some(mut mutate_info) = self.mutations.remove(&mutate_index) else {
+            debug!("received unknown `{mutate_index:?}` from client `{client}`");"""),
+       ("src/shared/replication/client_ticks.rs", """        for entity in &mutate_info.entities {
+            let Some(last_tick) = self.mutation_ticks.get_mut(entity) else {""", """        for entity in mutate_info.entities.drain(..) {
+            let Some(last_tick) = self.mutation_ticks.get_mut(&entity) else {"""))
